@@ -48,14 +48,14 @@ def e2eEngine : Engine := fun inp obs =>
         (match obs with
          | ["dup"] => .ok "trivial"
          | "setup-failed" :: _ => .bad "could not build the repository"
-         | "fail" :: "-9" :: _ => .viol "C05,C10" "git-sizer did not finish within 20 s on a repository of a few dozen objects"
+         | "fail" :: "-9" :: _ => .viol "C05,C10" "git-sizer did not finish within the hang limit (60 s) on a repository of a few dozen objects"
          | "fail" :: _ => .ok
          | _ => .viol "C10,C08" "a ROOT argument that is not a single revision (X^@ / X^!) was accepted: the report's descriptions are built from a name git cannot resolve")
       else
       match obs with
       | ["dup"] => .ok "trivial"
       | "setup-failed" :: _ => .bad "could not build the repository"
-      | "fail" :: "-9" :: _ => .viol "C05,C10" "git-sizer did not finish within 20 s on a repository of a few dozen objects"
+      | "fail" :: "-9" :: _ => .viol "C05,C10" "git-sizer did not finish within the hang limit (60 s) on a repository of a few dozen objects"
       | "fail" :: code :: _ => .viol ((if argsS == "-" then "C01,C02,C03,C04,C05,C08,C09,C10,C19" else "C01,C02,C03,C04,C05,C08,C09,C10,C19,C06") ++ (if nrefs > 0 then ",C07" else "")) s!"git-sizer failed (exit {code}) or wrote an unparsable report on a valid repository"
       | ["ok", numS, witS, _grpS, revS, stderrEmpty] =>
         -- contract of git: rev-list lists exactly the closure, children before parents
